@@ -11,22 +11,6 @@ pub const DAMLEV_THRESHOLD: f64 = 0.21;
 impl<'a> WordView<'a> {
     pub open spec fn small(&self) -> bool { self.slice.1 - self.slice.0 < 0x10_0000 }
 }
-pub open spec fn same_prefix(a: Seq<char>, b: Seq<char>, n: int) -> bool { n <= a.len() && n <= b.len() && forall|t: int| 0 <= t < n ==> a[t] == b[t] }
-// DL-zero: equal prefixes are at distance 0
-proof fn lemma_dl_zero(w1: Seq<char>, k1: Seq<CharClass>, w2: Seq<char>, k2: Seq<CharClass>, n: int)
-    requires 0 <= n, same_prefix(w1, w2, n)
-    ensures dcell(w1, k1, w2, k2, n, n) == 0
-    decreases n
-{
-    if n > 0 {
-        lemma_dl_zero(w1, k1, w2, k2, n - 1);
-        lemma_dcell_range(w1, k1, w2, k2, n, n - 1);
-        lemma_dcell_range(w1, k1, w2, k2, n - 1, n);
-        let l1 = last_occ(w1, w2[n - 1], n - 1);
-        let l2 = last_occ(w2, w1[n - 1], n - 1);
-        if 0 < l1 <= n - 1 && 0 < l2 <= n - 1 { lemma_dcell_range(w1, k1, w2, k2, l1 - 1, l2 - 1); }
-    }
-}
 // what the Jaccard pre-filter looks at
 pub open spec fn jac_arg(rword: &WordView, qword: &WordView) -> Seq<char> {
     if qword.fin { rword.vchars() } else { rword.vchars().subrange(0, imin(qword.vlen() + 1, rword.vlen())) }
@@ -41,6 +25,12 @@ pub open spec fn prefix_case(rword: &WordView, qword: &WordView) -> bool {
 // ---- C13 word-level clause: the two words have the same characters
 pub open spec fn equal_case(rword: &WordView, qword: &WordView) -> bool {
     1 <= qword.vlen() && qword.vlen() == rword.vlen() && same_prefix(qword.vchars(), rword.vchars(), qword.vlen())
+}
+// ---- C04 word-level clause: the unfinished query word is within one edit (distance <= 1.0) of the record word, both >= 4 letters, the longer >= 5
+pub open spec fn edit1_case(rword: &WordView, qword: &WordView) -> bool {
+    !qword.fin && 4 <= qword.vlen() && 4 <= rword.vlen() && (5 <= qword.vlen() || 5 <= rword.vlen())
+    && qword.vlen() <= rword.vlen() + 1 && rword.vlen() <= qword.vlen() + 1
+    && dcell(qword.vchars(), qword.vclasses(), rword.vchars(), rword.vclasses(), qword.vlen(), rword.vlen()) <= 2
 }
 pub open spec fn good(best: Option<(WordMatch, WordMatch)>) -> bool { best matches Some(p) && is_h(p.0.typos) && hv(p.0.typos) == 0 }
 pub open spec fn good_full(best: Option<(WordMatch, WordMatch)>, n: int) -> bool { good(best) && (best matches Some(p) && p.0.subslice.1 == n && p.1.subslice.1 == n) }
@@ -83,6 +73,10 @@ pub fn word_match(rword: &WordView, qword: &WordView, tls: &mut Tls) -> (ret: Op
         wm_fin(ret, rword, qword), // [C08 C13 C12]
         // C03 (word level): an exact prefix that passes the Jaccard pre-filter is matched with zero typos
         prefix_case(rword, qword) && jac_passes(rword, qword) ==> good(ret), // [C03]
+        // C05(c): ... and the match covers exactly the typed characters
+        prefix_case(rword, qword) && jac_passes(rword, qword) ==> good_full(ret, qword.vlen()), // [C05]
+        // C04 (word level): within one edit => matched
+        edit1_case(rword, qword) && jac_passes(rword, qword) ==> ret is Some, // [C04]
         // C13 (word level): an identical word is matched completely, with zero typos
         equal_case(rword, qword) && jac_passes(rword, qword) ==> good_full(ret, rword.vlen()), // [C13 C08]
 {
@@ -119,6 +113,8 @@ pub fn word_match(rword: &WordView, qword: &WordView, tls: &mut Tls) -> (ret: Op
                     wm_fin(best_match, rword, qword), // [C08 C13 C12]
                     left == (if qword.fin { imax(qword.stem as int, rword.stem as int) } else { qword.stem as int }) - 1,
                     prefix_case(rword, qword) && __rslice0 <= qw.len() ==> good(best_match), // [C03]
+                    prefix_case(rword, qword) && good(best_match) ==> good_full(best_match, qw.len() as int), // [C05]
+                    edit1_case(rword, qword) && __rslice0 <= rw.len() ==> best_match is Some, // [C04]
                     equal_case(rword, qword) && __rslice0 <= qw.len() ==> good_full(best_match, qw.len() as int), // [C13 C08]
                     equal_case(rword, qword) && __rslice0 > qw.len() ==> best_match is None, // [C13 C08]
                     dists.full_wf(), dists.size >= qw.len() + 2, dists.size >= rw.len() + 2, dists.rows_ok(qw, qk, rw, rk, qw.len() as int),
@@ -138,6 +134,9 @@ pub fn word_match(rword: &WordView, qword: &WordView, tls: &mut Tls) -> (ret: Op
                         wm_fin(best_match, rword, qword), // [C08 C13 C12]
                         left == (if qword.fin { imax(qword.stem as int, rword.stem as int) } else { qword.stem as int }) - 1,
                         prefix_case(rword, qword) && rslice < qw.len() ==> good(best_match), // [C03]
+                        prefix_case(rword, qword) && good(best_match) ==> good_full(best_match, qw.len() as int), // [C05]
+                        edit1_case(rword, qword) && rslice < rw.len() ==> best_match is Some, // [C04]
+                        edit1_case(rword, qword) && rslice == rw.len() && __qslice1 <= qw.len() ==> best_match is Some, // [C04]
                         prefix_case(rword, qword) && rslice == qw.len() && __qslice1 <= qw.len() ==> good(best_match), // [C03]
                         equal_case(rword, qword) && rslice < qw.len() ==> good_full(best_match, qw.len() as int), // [C13 C08]
                         equal_case(rword, qword) && rslice == qw.len() && __qslice1 <= qw.len() ==> good_full(best_match, qw.len() as int), // [C13 C08]
@@ -147,6 +146,7 @@ pub fn word_match(rword: &WordView, qword: &WordView, tls: &mut Tls) -> (ret: Op
                         rword.wfs(), qword.wfs(), rword.small(), qword.small(), qw == qword.vchars(), qk == qword.vclasses(), rw == rword.vchars(), rk == rword.vclasses(),
                         qw.len() == qword.vlen(), rw.len() == rword.vlen(),
                     ensures prefix_case(rword, qword) && rslice <= qw.len() ==> good(best_match), // [C03]
+                        edit1_case(rword, qword) && rslice <= rw.len() ==> best_match is Some, // [C04]
                         equal_case(rword, qword) && rslice <= qw.len() ==> good_full(best_match, qw.len() as int), // [C13 C08]
                     decreases __qslice1,
                 {
@@ -178,6 +178,11 @@ pub fn word_match(rword: &WordView, qword: &WordView, tls: &mut Tls) -> (ret: Op
                             lemma_dl_zero(qw, qk, rw, rk, qw.len() as int);
                             gax::ax_dl_gate_pass(dist, qw.len() as int);
                         }
+                        if edit1_case(rword, qword) && qslice == qw.len() && rslice == rw.len() {
+                            gax::ax_dl_gate_pass(dist, imax(qw.len() as int, rw.len() as int));
+                        }
+                        // DL-pos: a zero distance only between equal-length equal prefixes
+                        if hv(dist) == 0 { lemma_dl_pos(qw, qk, rw, rk, qslice as int, rslice as int); }
                     }
                     let rel = dist / usize_as_f64(vmax(qslice, vmax(rslice, 1)));
                     if rel > DAMLEV_THRESHOLD {
@@ -219,6 +224,7 @@ pub fn length_check(rword: &WordView, qword: &WordView) -> (ret: bool)
     requires rword.wfs(), qword.wfs(), rword.small(), qword.small(),
     ensures prefix_case(rword, qword) ==> ret, // [C03]
         equal_case(rword, qword) ==> ret, // [C13 C08]
+        edit1_case(rword, qword) ==> ret, // [C04]
 {
     proof { f64_obeys(); }
     let qlen = qword.len();
